@@ -12,7 +12,7 @@ from __future__ import annotations
 
 import numpy as np
 
-from harness.common import run_driver, prove, BASE_TRUST, LeanError
+from harness.common import run_driver, prove, BASE_TRUST, LeanError, f2h
 from harness import rodas_common as RC
 
 
@@ -46,6 +46,59 @@ def oracle_grid(name, sol, tspan, hmax, terminal_possible, fails, case):
             fails.append((case, f"{name}: a step of {d.max()!r} (step #{int(np.argmax(d))}) exceeds the requested maximum step {hmax!r}"))
 
 
+def o15_line(tspan, trace):
+    """protocol line replaying one ode15s run on the Lean controller from its per-step hook records"""
+    parts = ["o15", "t", str(len(tspan))] + [f2h(float(x)) for x in tspan]
+    parts += ["hmax", f2h(trace[0]["hmax"]), "absh0", f2h(trace[0]["absh_in"]), "recs", str(len(trace))]
+    for r in trace:
+        parts += ["inner", str(len(r["inner"]))]
+        for e in r["inner"]:
+            if e[0] == "slowJ":
+                parts.append("J")
+            elif e[0] == "slowShrink":
+                parts.append("S")
+            else:
+                parts += ["E", f2h(e[1]), "none" if e[2] is None else f2h(e[2])]
+        if r.get("temps") is None:
+            parts += ["temps", "none"]
+        else:
+            a, b, c = r["temps"]
+            parts += ["temps", f2h(a), "none" if b is None else f2h(b), "none" if c is None else f2h(c)]
+    return " ".join(parts)
+
+
+def o15_expected(sol, trace):
+    T = [float(x) for x in np.asarray(sol.T).ravel()]
+    ks = [r["k_out"] for r in trace if "k_out" in r]
+    hs = [r["absh_out"] for r in trace if "absh_out" in r]
+    return dict(T=[f2h(x) for x in T], k=[str(k) for k in ks], h=[f2h(x) for x in hs], nstep=len(trace),
+                failed=any(r.get("failed") for r in trace))
+
+
+def o15_compare(exp, ans):
+    """-> None or a description of the first difference"""
+    w = ans.split()
+    if not w or w[0] != "T":
+        return f"driver answered {ans[:80]!r}"
+    n = int(w[1])
+    T = w[2:2 + n]
+    rest = w[2 + n:]
+    ki, hi, si = rest.index("k"), rest.index("h"), rest.index("stat")
+    ks, hs, stat = rest[ki + 1:hi], rest[hi + 1:si], rest[si + 1:]
+    if T != exp["T"]:
+        j = next((i for i, (a, b) in enumerate(zip(T, exp["T"])) if a != b), min(len(T), len(exp["T"])))
+        return f"returned times differ at index {j}: model has {len(T)} times, implementation {len(exp['T'])}"
+    m = len(exp["k"])                      # the final (done) step records no proposal
+    if ks[:m] != exp["k"]:
+        return f"orders after each step differ: model {ks[:m][:12]}, implementation {exp['k'][:12]}"
+    if hs[:m] != exp["h"]:
+        j = next(i for i, (a, b) in enumerate(zip(hs, exp["h"])) if a != b)
+        return f"step size after step {j} differs"
+    if int(stat[0]) != exp["nstep"] or (stat[1] == "true") != exp["failed"]:
+        return f"counters differ: model {stat}, implementation nstep={exp['nstep']} failed={exp['failed']}"
+    return None
+
+
 def run(rep, tier, seed):
     from Solverz import ode15s, Opt
     import importlib, sys as _sys
@@ -54,14 +107,16 @@ def run(rep, tier, seed):
     rep.cov["trusted_base"] = BASE_TRUST + [
         "hooks: per-attempt (err, fac0) of Rodas and per-step records of ode15s under SOLVERZ_VERIF=1; err**(1/pord) is taken from the run",
         "the stage computations and the values of the dense output are not part of the controller model (C07 covers their order)",
-        "ode15s: only its returned grid is checked (oracle + hook invariants); its controller is not modelled in Lean"]
+        "ode15s: the step-size / order / output controller is modelled (Core/Ctl/Ode15s.lean) and replayed bit for bit from per-step hook "
+        "records (what each retry did, the factors of the proposals); the Newton iteration and the error norms are oracles"]
     failed = rep.add_proof(prove("C09"))
     rng = np.random.default_rng(seed)
     P = RC.problems()
     ncase = 60 if tier == "quick" else 800
     lines, expect, cases = [], [], []
     fails, diffs, broken = [], [], []
-    hist = dict(two=0, dense=0, rejected_runs=0, failed_runs=0, attempts=0)
+    hist = dict(two=0, dense=0, rejected_runs=0, failed_runs=0, attempts=0, o15_runs=0, o15_steps=0, o15_retries={}, o15_order_changes=0)
+    o15_lines, o15_expect, o15_cases = [], [], []
     for _ in range(ncase):
         pname, tspan, optkw, _ = RC.gen_case(rng)
         dae, y0 = P[pname]
@@ -84,6 +139,14 @@ def run(rep, tier, seed):
                 kw = {k: v for k, v in optkw.items() if k in ("rtol", "atol", "hmax", "hinit")}
                 s15 = RC.quiet(ode15s, dae, tspan, y0.copy(), Opt(**kw))
                 oracle_grid("ode15s", s15, tspan, optkw.get("hmax"), False, fails, case)
+                tr15 = [dict(r) for r in O15._verif_trace]
+                if tr15:
+                    o15_lines.append(o15_line(tspan, tr15)); o15_expect.append(o15_expected(s15, tr15)); o15_cases.append(case)
+                    hist["o15_runs"] += 1; hist["o15_steps"] += len(tr15)
+                    for r in tr15:
+                        for e in r["inner"]:
+                            hist["o15_retries"][e[0]] = hist["o15_retries"].get(e[0], 0) + 1
+                        hist["o15_order_changes"] += int(r.get("k_out", r["k"]) != r["k_in"])
                 for r in O15._verif_trace:
                     if not (1 <= r["k"] <= 5):
                         fails.append((case, f"ode15s: order {r['k']} outside 1..5"))
@@ -120,16 +183,22 @@ def run(rep, tier, seed):
         for c, e, g in zip(cases, expect, got):
             if e.split() != g.split()[:-1]:        # the model's trailing `done` flag is not compared
                 diffs.append(dict(case=c, implementation=e[:400], model=g[:400]))
+        got15 = run_driver(o15_lines) if o15_lines else []
+        for c, e, g in zip(o15_cases, o15_expect, got15):
+            d = o15_compare(e, g)
+            if d:
+                diffs.append(dict(case=dict(c, solver="ode15s"), implementation=d, model=g[:300]))
     except LeanError as ex:
         broken.append(str(ex))
-    rep.cov["evaluations"] = len(lines)
+    rep.cov["evaluations"] = len(lines) + len(o15_lines)
     rep.cov["distinct_nontrivial"] = len(set(lines))
     rep.cov["rule"] = ("random requests: problem (decay / ramp / stiff van der Pol DAE / forced oscillator), t0 incl. negative, spans 1e-3..20, "
                        "tspan shapes (2 nodes, uniform, non-uniform, finer and coarser than the steps), rtol/atol, hmax, hinit, scheme, facmax; "
-                       "every Rodas run replayed on the Lean controller from its per-attempt trace and compared exactly; ode15s grid by oracle")
+                       "every Rodas run replayed on the Lean controller from its per-attempt trace and compared exactly; every ode15s run replayed on the "
+                       "Lean ode15s controller from its per-step records (times, orders, step sizes, counters compared exactly) and checked by the grid oracle")
     rep.cov["samples"] = [dict(case=c, answer=e[:160]) for c, e in list(zip(cases, expect))[:3]]
     rep.cov["histogram"] = hist
-    rep.cov["traces_validated_against_impl"] = len(lines) - len(diffs)
+    rep.cov["traces_validated_against_impl"] = len(lines) + len(o15_lines) - len(diffs)
     rep.cov["disagreements"] = len(diffs)
     seen = set()
     for case, m in fails:
@@ -144,7 +213,7 @@ def run(rep, tier, seed):
         for b in broken:
             rep.violation("driver: " + b, dict(kind="driver", detail=b), has_input=False)
         for d in diffs[:5]:
-            rep.violation("model and implementation disagree on the Rodas controller / output bookkeeping (correspondence C09/trace); "
+            rep.violation("model and implementation disagree on the Rodas / ode15s controller or output bookkeeping (correspondence C09/trace); "
                           "the grid oracle found no violation", dict(kind="correspondence", **d), has_input=False)
 
 
